@@ -25,9 +25,21 @@
   target; `u64::try_from(i64)`; primitive float predicates / negation / `to_bits`; `leading_zeros`
   and `checked_shr` of the mantissa word; `i << BIT_SHIFT = i * w`.  The float → float-free side
   (`to_f32`, `as_`) rests on the C14 model of `cast_float_from_uint` at value level.
+
+  `AsPrimitive`: `src/int/numtraits.rs` has FOUR impl families — (a) bnum → primitive / float,
+  (b) primitive / char / bool / float → bnum, (c) bnum → `BUint<M>`, (d) bnum → `BInt<M>` (same
+  digit type).  Every body is a single `cast_from` call, and so is every model definition
+  (`asPrim`, `asFloat`; `asFromPrim`, `asFromChar`, `asFromBool`, `asFromFloat`, `asBig` of
+  Model/C19Extra.lean): the `…_eq_cast` theorems are therefore `rfl` — they record the delegation,
+  they are not evidence for it.  The evidence that the Rust `AsPrimitive::as_` equals the `As` cast is
+  the harness (harness/src/bin/c19.rs), which evaluates `AsPrimitive::as_`, `CastFrom::cast_from`
+  and `bnum::cast::As::as_` on every `as_*` request and answers `MISMATCH(..)` unless they agree.
+  The substantive theorems are the `…_spec` / `…_matches_spec` ones: the result is the source value
+  modulo `2^BITS` (integers) resp. C14's truncate-and-saturate value (float sources), never a panic.
 -/
 import Bnum.Lemmas.NumConv
 import Bnum.Lemmas.NumConvD
+import Bnum.Lemmas.C19Extra
 namespace Bnum.C19
 open Bnum Bnum.NumC
 
@@ -245,6 +257,128 @@ theorem as_float_spec {F : FloatFmt} (hF : F.Valid) {w n : Nat} {x : List Nat} (
     (hw : 1 ≤ w) (hn : 1 ≤ n) (dbg : Bool) (hx : WF w n x) :
     asFloat dbg F w s x = .ok (Spec.intToFloat F.spec (valOf s w x)) :=
   NumC.asFloat_spec hF s hw hn dbg hx
+
+/-- the model answer printed by the driver for `as_<int>` is the specification's answer -/
+theorem as_matches_spec {w n : Nat} {x : List Nat} (s : Bool) (hw : 1 ≤ w) (hn : 1 ≤ n)
+    (hx : WF w n x) (t : PTy) :
+    asPrim w s x t = .ok (Spec.cast s (M w n) (U w x) (2 ^ t.bits)) := by
+  rw [as_spec s hw hn hx t]; unfold Spec.cast; rw [NumC.valueOf_digits s hx]; rfl
+example : WF 8 3 [0x01, 0x00, 0x80] ∧
+    asPrim 8 true [0x01, 0x00, 0x80] ⟨16, true⟩ = .ok 1 ∧
+    asPrim 8 true [0x01, 0x80, 0xff] ⟨64, false⟩ = .ok 0xffffffffffff8001 := by decide
+
+/-! ### the other `AsPrimitive` impl families of `src/int/numtraits.rs` (Model/C19Extra.lean)
+
+  (b) `impl AsPrimitive<$Big<N>> for u8 … i128, usize, isize, char, bool, f32, f64`
+      (`as_bigint_impl!`, l.28-42,164): `$Big::cast_from(self)`;
+  (c) `impl AsPrimitive<$BUint<M>> for $Int<N>` (l.166-171), (d) `impl AsPrimitive<$BInt<M>> for
+      $Int<N>` (l.173-178): `…::<M>::cast_from(self)`, both sides of the same digit type. -/
+
+/-- (b), integer sources: `as_` is the `as_buint!` / `as_bint!` cast of C09 … -/
+theorem as_from_prim_eq_cast (w n : Nat) (s : Bool) (t : PTy) (p : Nat) :
+    asFromPrim w n s t p = castFromPrim w n s t p := rfl
+/-- … hence: never panics, `n` well-formed digits, pattern = the primitive's VALUE modulo `2^(w·n)`
+    (zero-extension of unsigned, sign-extension of signed sources, truncation when narrower) -/
+theorem as_from_prim_spec {w n : Nat} {t : PTy} {p : Nat} (s : Bool) (hn : 1 ≤ n)
+    (hk : 1 ≤ t.bits) (hp : p < B t.bits) :
+    CastOk w n (asFromPrim w n s t p) (PInt.val t p) := NumC.asFromPrim_spec s hn hk hp
+-- `(-2i8).as_()` into 32 bits of u16 digits sign-extends; `0x1234u16.as_()` into 8 bits truncates
+example : ((1 : Nat) ≤ 2 ∧ 1 ≤ (⟨8, true⟩ : PTy).bits ∧ (0xfe : Nat) < B 8) ∧
+    asFromPrim 16 2 false ⟨8, true⟩ 0xfe = .ok [0xfffe, 0xffff] ∧
+    asFromPrim 8 1 true ⟨16, false⟩ 0x1234 = .ok [0x34] := by decide
+
+/-- a primitive value that the target can represent is preserved -/
+theorem as_from_prim_value {w n : Nat} {t : PTy} {p : Nat} (s : Bool) (hn : 1 ≤ n)
+    (hk : 1 ≤ t.bits) (hp : p < B t.bits)
+    (hrep : if s then repS (M w n) (PInt.val t p) else repU (M w n) (PInt.val t p)) :
+    ∃ r, asFromPrim w n s t p = .ok r ∧ WF w n r ∧ valOf s w r = PInt.val t p :=
+  (as_from_prim_spec s hn hk hp).value s hrep
+example : repS (M 8 3) (PInt.val ⟨64, true⟩ 0xffffffffffff8000) ∧
+    asFromPrim 8 3 true ⟨64, true⟩ 0xffffffffffff8000 = .ok [0x00, 0x80, 0xff] := by decide
+
+theorem as_from_prim_ne_panic {w n : Nat} {t : PTy} {p : Nat} (s : Bool) (hn : 1 ≤ n)
+    (hk : 1 ≤ t.bits) (hp : p < B t.bits) : asFromPrim w n s t p ≠ .panic :=
+  (as_from_prim_spec s hn hk hp).ne_panic
+
+/-- the printed model answer is the specification's answer (`Spec.cast`) -/
+theorem as_from_prim_matches_spec {w n : Nat} {t : PTy} {p : Nat} (s : Bool) (hn : 1 ≤ n)
+    (hk : 1 ≤ t.bits) (hp : p < B t.bits) :
+    (asFromPrim w n s t p).map (U w) = .ok (Spec.cast t.signed (2 ^ t.bits) p (M w n)) :=
+  NumC.asFromPrim_matches s hn hk hp
+
+/-- (b), `char`: the code point modulo `2^BITS`; `as_` is `CastFrom<char>` -/
+theorem as_from_char_spec {w n c : Nat} (s : Bool) (hn : 1 ≤ n) (hc : c < B 32) :
+    CastOk w n (asFromChar w n s c) (c : Int) ∧
+    (asFromChar w n s c).map (U w) = .ok (Spec.cast false (2 ^ 32) c (M w n)) ∧
+    asFromChar w n s c = (if s then II.castFromChar w n c else UI.castFromChar w n c) :=
+  ⟨NumC.asFromChar_spec s hn hc, NumC.asFromChar_matches s hn hc, rfl⟩
+example : ((1 : Nat) ≤ 2 ∧ (0x10ffff : Nat) < B 32) ∧
+    asFromChar 8 2 false 0x10ffff = .ok [0xff, 0xff] ∧
+    asFromChar 8 3 true 0x10ffff = .ok [0xff, 0xff, 0x10] := by decide
+
+/-- (b), `bool`: `true ↦ 1`, `false ↦ 0` (total: cannot panic); `as_` is `CastFrom<bool>` -/
+theorem as_from_bool_spec {w n : Nat} (s : Bool) (hw : 1 ≤ w) (hn : 1 ≤ n) (b : Bool) :
+    WF w n (asFromBool n s b) ∧ U w (asFromBool n s b) = b.toNat ∧
+    U w (asFromBool n s b) = Spec.cast false 2 b.toNat (M w n) ∧
+    asFromBool n s b = (if s then II.castFromBool n b else UI.castFromBool n b) :=
+  ⟨(NumC.asFromBool_spec s hw hn b).1, (NumC.asFromBool_spec s hw hn b).2,
+   NumC.asFromBool_matches s hw hn b, rfl⟩
+example : asFromBool 3 true true = [1, 0, 0] ∧ asFromBool 2 false false = [0, 0] := by decide
+
+/-- (b), `f32` / `f64`: `as_` is the digit-level `CastFrom<f32/f64>` of C14 … -/
+theorem as_from_float_eq_cast (dbg : Bool) (F : FloatFmt) (w n : Nat) (x : Nat) :
+    asFromFloat dbg F w n false x = FltD.buintFromFloat F dbg w n x ∧
+    asFromFloat dbg F w n true x = FltD.bintFromFloat F dbg w n x := ⟨rfl, rfl⟩
+/-- … hence in both build modes: no panic, well-formed digits, NaN ↦ 0, ±∞ / out of range ↦
+    saturation, otherwise truncation toward zero (`Spec.floatToInt`) -/
+theorem as_from_float_spec {F : FloatFmt} (hF : F.Valid) (dbg : Bool) {w n : Nat} (hw : 2 ≤ w)
+    (hn : 1 ≤ n) (s : Bool) {x : Nat} (hx : x < 2 ^ F.bits) :
+    ∃ r, asFromFloat dbg F w n s x = .ok r ∧ WF w n r ∧
+      U w r = Spec.floatToInt F.spec s (M w n) x := NumC.asFromFloat_spec hF dbg hw hn s hx
+-- `(-2.5f32).as_()` = -2 in 16 signed bits and 0 in 16 unsigned bits; `256.0f32` saturates 8 bits
+example : ((2 : Nat) ≤ 8 ∧ (1 : Nat) ≤ 2 ∧ (0xc0200000 : Nat) < 2 ^ fmtF32.bits) ∧
+    asFromFloat false fmtF32 8 2 true 0xc0200000 = .ok [0xfe, 0xff] ∧
+    asFromFloat true fmtF32 8 2 false 0xc0200000 = .ok [0, 0] ∧
+    asFromFloat true fmtF32 8 1 false 0x43800000 = .ok [0xff] := by decide
+
+theorem as_from_float_matches_spec {F : FloatFmt} (hF : F.Valid) (dbg : Bool) {w n : Nat}
+    (hw : 2 ≤ w) (hn : 1 ≤ n) (s : Bool) {x : Nat} (hx : x < 2 ^ F.bits) :
+    (asFromFloat dbg F w n s x).map (U w) = .ok (Spec.floatToInt F.spec s (M w n) x) :=
+  NumC.asFromFloat_matches hF dbg hw hn s hx
+
+/-- (c), (d): `as_` between two bnum types of one digit type is the same-digit `CastFrom` of C09 … -/
+theorem as_big_eq_cast (w : Nat) (s₁ : Bool) (x : List Nat) (m : Nat) (s₂ : Bool) :
+    asBig w s₁ x m s₂ = castBnum w s₁ x w m s₂ ∧
+    asBig w false x m false = UI.castFromU x m ∧ asBig w true x m false = UI.castFromI w x m ∧
+    asBig w false x m true = II.castFromU x m ∧ asBig w true x m true = II.castFromI w x m := by
+  refine ⟨rfl, ?_, ?_, ?_, ?_⟩ <;> simp [asBig, castBnum]
+/-- … hence: never panics, `m` well-formed digits, pattern = the source VALUE modulo `2^(w·m)`
+    (any `n`, `m ≥ 1`: widening with zero / sign extension, same size, truncation) -/
+theorem as_big_spec {w n : Nat} {x : List Nat} (s₁ s₂ : Bool) {m : Nat} (hw : 1 ≤ w) (hn : 1 ≤ n)
+    (hm : 1 ≤ m) (hx : WF w n x) : CastOk w m (asBig w s₁ x m s₂) (valOf s₁ w x) :=
+  NumC.asBig_spec s₁ s₂ hw hn hm hx
+-- `BIntD8<1>(-2).as_::<BUintD8<3>>()` sign-extends; `BUintD8<3> → BIntD8<1>` truncates
+example : ((1 : Nat) ≤ 8 ∧ (1 : Nat) ≤ 1 ∧ (1 : Nat) ≤ 3) ∧ WF 8 1 [0xfe] ∧
+    asBig 8 true [0xfe] 3 false = .ok [0xfe, 0xff, 0xff] ∧
+    asBig 8 false [0x34, 0x12, 0xff] 1 true = .ok [0x34] := by decide
+
+/-- a source value that the target can represent is preserved -/
+theorem as_big_value {w n : Nat} {x : List Nat} (s₁ s₂ : Bool) {m : Nat} (hw : 1 ≤ w) (hn : 1 ≤ n)
+    (hm : 1 ≤ m) (hx : WF w n x)
+    (hrep : if s₂ then repS (M w m) (valOf s₁ w x) else repU (M w m) (valOf s₁ w x)) :
+    ∃ r, asBig w s₁ x m s₂ = .ok r ∧ WF w m r ∧ valOf s₂ w r = valOf s₁ w x :=
+  (as_big_spec s₁ s₂ hw hn hm hx).value s₂ hrep
+example : repS (M 8 3) (valOf true 8 [0xfe]) ∧ asBig 8 true [0xfe] 3 true = .ok [0xfe, 0xff, 0xff] ∧
+    valOf true 8 [0xfe, 0xff, 0xff] = valOf true 8 [0xfe] := by decide
+
+theorem as_big_ne_panic {w n : Nat} {x : List Nat} (s₁ s₂ : Bool) {m : Nat} (hw : 1 ≤ w)
+    (hn : 1 ≤ n) (hm : 1 ≤ m) (hx : WF w n x) : asBig w s₁ x m s₂ ≠ .panic :=
+  (as_big_spec s₁ s₂ hw hn hm hx).ne_panic
+
+theorem as_big_matches_spec {w n : Nat} {x : List Nat} (s₁ s₂ : Bool) {m : Nat} (hw : 1 ≤ w)
+    (hn : 1 ≤ n) (hm : 1 ≤ m) (hx : WF w n x) :
+    (asBig w s₁ x m s₂).map (U w) = .ok (Spec.cast s₁ (M w n) (U w x) (M w m)) :=
+  NumC.asBig_matches s₁ s₂ hw hn hm hx
 
 /-! ### digit-level float conversions (Model/NumConvD.lean, what `bnum_driver` runs)
 
